@@ -293,13 +293,13 @@ def sample(ctx, budget=1.0, hint=None, broken=None):
         try:
             xmin, xmax, ymin, ymax = obj.bbox()
         except Exception as e:
-            fail('%s.bbox/raises' % kind, 'bbox() raised', {'obj': desc}, repr(e), 'a box', rep0 or 'svgpathtools.%s.bbox()' % desc)
+            fail('%s.bbox/raises' % kind, 'bbox() raised', {'obj': desc}, repr(e), 'a box', (rep0 if rep0 is not None else 'svgpathtools.%s.bbox()' % desc))
             return
         xs, ys = pts.real, pts.imag
         size = max(xs.max() - xs.min(), ys.max() - ys.min(), 1e-300)
         scale = size + max(abs(xs).max(), abs(ys).max()) * 1e-7
         tol = 1e-9 * scale
-        rep = rep0 or 'svgpathtools.%s.bbox()' % desc
+        rep = (rep0 if rep0 is not None else 'svgpathtools.%s.bbox()' % desc)
         if xs.min() < xmin - tol or xs.max() > xmax + tol or ys.min() < ymin - tol or ys.max() > ymax + tol:
             i = int(np.argmax(np.maximum.reduce([xmin - xs, xs - xmax, ymin - ys, ys - ymax])))
             fail('%s.bbox/containment' % kind, 'a point of the curve lies outside bbox()', {'obj': desc, 'point': repr(complex(pts[i]))},
@@ -399,16 +399,37 @@ def sample(ctx, budget=1.0, hint=None, broken=None):
             segs.append(_rand_seg(spt, r, cur, 1.0))
             cur = segs[-1].end + (complex(1, 1) if r.random() < 0.3 else 0)
         path = P.Path(*segs)
+        twin_hist = ''
+        if r.random() < 0.3:
+            # the box is asked for, then one coordinate of one point moves between -1 and -2 (two values with equal hash in CPython, also
+            # inside a complex and inside the tuples segments and paths hash), then the box is asked for again
+            cand = [sg for sg in segs if not isinstance(sg, P.Arc)]
+            if cand:
+                sg = r.choice(cand)
+                a_ = float(r.randint(-3, 3))
+                v1_, v2_ = r.choice([(complex(a_, -1.0), complex(a_, -2.0)), (complex(-2.0, a_), complex(-1.0, a_)), (complex(a_, -2.0), complex(a_, -1.0))])
+                attr = r.choice(['start', 'end'])
+                setattr(sg, attr, v1_)
+                path.bbox(); path.length()
+                how_ = r.choice(['attribute', 'item'])
+                if how_ == 'attribute':
+                    setattr(sg, attr, v2_)
+                else:
+                    i_ = [j for j, x_ in enumerate(segs) if x_ is sg][0]
+                    new_ = type(sg)(*[(v2_ if (k_ == (0 if attr == 'start' else len(sg.bpoints()) - 1)) else q_) for k_, q_ in enumerate(sg.bpoints())])
+                    path[i_] = new_
+                    segs[i_] = new_
+                twin_hist = ' [after bbox(), then %s %s: %r -> %r]' % (how_, attr, v1_, v2_)
         n_eval += 1
-        nontriv.add(('path', n))
+        nontriv.add(('path', n, bool(twin_hist)))
         pts = np.concatenate([np.array([s.point(t) for t in ts[::4]]) for s in segs])
-        desc = repr(path).replace('\n', ' ')
-        check(path, desc, 'Path', pts)
+        desc = repr(path).replace('\n', ' ') + twin_hist
+        check(path, desc, 'Path', pts, rep0=('' if twin_hist else None))
         bb = path.bbox()
         sb = [s.bbox() for s in segs]
         want = (min(b[0] for b in sb), max(b[1] for b in sb), min(b[2] for b in sb), max(b[3] for b in sb))
         if tuple(bb) != want:
-            fail('Path.bbox/union', 'path box is not the union of the segment boxes', {'path': desc}, repr(tuple(bb)), repr(want), 'svgpathtools.%s.bbox()' % desc)
+            fail('Path.bbox/union', 'path box is not the union of the segment boxes', {'path': desc}, repr(tuple(bb)), repr(want), ('' if twin_hist else 'svgpathtools.%s.bbox()' % desc))
     return {'evaluations': n_eval, 'distinct_nontrivial': len(nontriv), 'failures': fails, 'samples': samples,
             'rule': 'random segments: lines, quadratics, cubics (generic, degree-elevated so that a coordinate polynomial degenerates exactly, monotone), '
                     'arcs of every rotation / flag combination incl. nearly full turns, scales 1e-2..1e3; random paths. 2001 points per segment; '
